@@ -744,11 +744,13 @@ func (e *Evaluator) createSpeculativeObjects(specObj *Cell) (*Cell, error) {
 		return nil, fmt.Errorf("could not create this object")
 	}
 
+	// a numeric key goes first: a character of a string has its index in Num and
+	// the character itself, not a key, in Str
 	var memberToSet Value
-	if specObj.Value.Str != nil {
-		memberToSet = NewString(*specObj.Value.Str)
-	} else if specObj.Value.Num != nil {
+	if specObj.Value.Num != nil {
 		memberToSet = NewValue(*specObj.Value.Num)
+	} else if specObj.Value.Str != nil {
+		memberToSet = NewString(*specObj.Value.Str)
 	} else {
 		panic("speculative object has no Str or Num")
 	}
@@ -788,8 +790,12 @@ func (e *Evaluator) evalAssignment(expr Expr, left *Cell, right *Cell) (*Cell, e
 	// evalBinaryExpr. assigning to it must set the member on the receiver, like
 	// for a member that doesn't exist yet, and never touch the prototype
 	isMethod := left.Value.Tag == ValueNativeFn && left.Value.ParentObj != nil
+	// a character read from a string by index, see GetMember. it has to go the
+	// same way so that the attempt to set a member on a string is reported. a
+	// string stored in a variable or a member never has a parent
+	isStringChar := left.Value.Tag == ValueStr && left.Value.ParentObj != nil
 
-	if isSpeculative || isMethod {
+	if isSpeculative || isMethod || isStringChar {
 		// speculative object creation
 		var err error
 		left, err = e.createSpeculativeObjects(left)
